@@ -22,7 +22,7 @@ PROPS = {
     },
     'C03': {
         'verus': ['program_lines', 'program_state', 'data_cursor', 'variables', 'statements'],
-        'kani': ['arrays', 'operators'],
+        'kani': ['arrays', 'operators', 'loop_stack'],
         'level': 'proof',
         'design_ref': 'DESIGN.md §6 C03',
     },
@@ -82,13 +82,13 @@ PROPS = {
     },
     'C11': {
         'verus': ['program_lines', 'program_state', 'interp_api'],
-        'kani': [],
+        'kani': ['loop_stack'],
         'level': 'proof',
         'design_ref': 'DESIGN.md §6 C11',
     },
     'C16': {
         'verus': ['program_state', 'variables', 'statements', 'arrays_map'],
-        'kani': ['arrays', 'operators'],
+        'kani': ['arrays', 'operators', 'loop_stack'],
         'level': 'proof',
         'design_ref': 'DESIGN.md §6 C16',
     },
